@@ -706,4 +706,636 @@ theorem add_cycle_breaks_acyclic : (cAdd (cAdd w3 0 1).1 1 0).2 = true ∧ ¬ Ac
   have h2 := hd 0 1 (by decide)
   omega
 
+
+
+
+private theorem nodup_map_on {f : Nat → Nat} : ∀ (l : List Nat), l.Nodup →
+    (∀ a ∈ l, ∀ b ∈ l, f a = f b → a = b) → (l.map f).Nodup
+  | [], _, _ => List.nodup_nil
+  | a :: rest, hnd, hinj => by
+    have hnd' := List.nodup_cons.mp hnd
+    rw [List.map_cons, List.nodup_cons]
+    refine ⟨?_, nodup_map_on rest hnd'.2 (fun x hx y hy => hinj x (by simp [hx]) y (by simp [hy]))⟩
+    intro hm
+    obtain ⟨b, hb, hfb⟩ := List.mem_map.mp hm
+    have := hinj b (by simp [hb]) a (by simp) hfb
+    subst this; exact hnd'.1 hb
+
+/-- renaming of an original object to its copy -/
+def ren (s : St) (L : List Nat) (o : Nat) : Nat := s.next + L.idxOf o
+
+private theorem getD_idx (L : List Nat) (o : Nat) (h : o ∈ L) : L.getD (L.idxOf o) 0 = o := by
+  have hl := List.idxOf_lt_length_of_mem h
+  simp [List.getD, List.getElem?_eq_getElem hl, List.getElem_idxOf hl]
+
+private theorem idx_getD (L : List Nat) (hnd : L.Nodup) (i : Nat) (h : i < L.length) :
+    L.getD i 0 ∈ L ∧ L.idxOf (L.getD i 0) = i := by
+  have e : L.getD i 0 = L[i] := by simp [List.getD, List.getElem?_eq_getElem h]
+  rw [e]; exact ⟨List.getElem_mem h, hnd.idxOf_getElem i h⟩
+
+private theorem idx_inj (L : List Nat) (a b : Nat) (ha : a ∈ L) (hb : b ∈ L) (h : L.idxOf a = L.idxOf b) : a = b := by
+  rw [← getD_idx L a ha, ← getD_idx L b hb, h]
+
+/-- hypotheses of `copy_spec` on the list of copied objects: root first, no repeats, closed under child
+lists, every non-root member listed by a member, the root listed by no member; all ids live -/
+structure CopyOK (s : St) (n : Nat) (L : List Nat) : Prop where
+  head : ∃ L', L = n :: L'
+  nodup : L.Nodup
+  closed : ∀ q ∈ L, ∀ c ∈ s.kids q, c ∈ L
+  root : ∀ q ∈ L, n ∉ s.kids q
+  live : ∀ x ∈ L, x < s.next
+  bounded : ∀ p c, c ∈ s.kids p → c < s.next ∧ p < s.next
+
+section
+variable (s : St) (n : Nat) (L : List Nat) (hc : CopyOK s n L) (hinv : Inv s)
+include hc hinv
+
+private theorem isNew_ren (o : Nat) (ho : o ∈ L) :
+    (decide (s.next ≤ ren s L o) && decide (ren s L o < s.next + L.length)) = true := by
+  have := List.idxOf_lt_length_of_mem ho
+  simp [ren]; omega
+
+private theorem idx_root : L.idxOf n = 0 := by
+  obtain ⟨L', e⟩ := hc.head; subst e; simp
+
+private theorem ren_eq_base (o : Nat) (ho : o ∈ L) : ren s L o = s.next ↔ o = n := by
+  have hn : n ∈ L := by obtain ⟨L', e⟩ := hc.head; subst e; simp
+  constructor
+  · intro h
+    have : L.idxOf o = L.idxOf n := by rw [idx_root s n L hc hinv]; simp [ren] at h; exact h
+    exact idx_inj L o n ho hn this
+  · intro h; rw [h]; simp [ren, idx_root s n L hc hinv]
+
+private theorem lister_eq (o c : Nat) (ho : o ∈ L) (hcn : c ∈ s.kids o) :
+    L.find? (fun q => decide (c ∈ s.kids q)) = some o := by
+  cases hf : L.find? (fun q => decide (c ∈ s.kids q)) with
+  | none =>
+    have := (List.find?_eq_none.mp hf) o ho
+    simp [hcn] at this
+  | some q =>
+    have hq := List.find?_some hf
+    simp at hq
+    have h1 := hinv.1 q c hq
+    have h2 := hinv.1 o c hcn
+    rw [h1] at h2; cases h2; rfl
+
+/-- kids of a copy -/
+theorem copy_kids_new (o : Nat) (ho : o ∈ L) :
+    (copyWith s L).kids (ren s L o) = (s.kids o).map (ren s L) := by
+  have h1 := isNew_ren s n L hc hinv o ho
+  simp only [copyWith, h1, if_true]
+  have : ren s L o - s.next = L.idxOf o := by simp [ren]
+  rw [this, getD_idx L o ho]; rfl
+
+theorem copy_parent_new (o c : Nat) (ho : o ∈ L) (hcn : c ∈ s.kids o) :
+    (copyWith s L).parent (ren s L c) = some (ren s L o) := by
+  have hcL := hc.closed o ho c hcn
+  have h1 := isNew_ren s n L hc hinv c hcL
+  have hne : ren s L c ≠ s.next := by
+    intro e; have := (ren_eq_base s n L hc hinv c hcL).mp e; subst this; exact hc.root o ho hcn
+  have e : L.getD (ren s L c - s.next) 0 = c := by
+    have : ren s L c - s.next = L.idxOf c := by simp [ren]
+    rw [this]; exact getD_idx L c hcL
+  simp only [copyWith, h1, if_true, hne, if_false, e, lister_eq s n L hc hinv o c ho hcn]; rfl
+
+theorem copy_old (x : Nat) (hx : x < s.next) :
+    (copyWith s L).parent x = s.parent x ∧ (copyWith s L).kids x = s.kids x ∧
+    (copyWith s L).loc x = s.loc x ∧ (copyWith s L).grid x = s.grid x ∧
+    (copyWith s L).kind x = s.kind x ∧ (copyWith s L).flags x = s.flags x ∧ (copyWith s L).typ x = s.typ x := by
+  have h1 : ¬ s.next ≤ x := by omega
+  simp [copyWith, h1]
+
+private theorem new_is_ren (x : Nat) (hx : (decide (s.next ≤ x) && decide (x < s.next + L.length)) = true) :
+    L.getD (x - s.next) 0 ∈ L ∧ x = ren s L (L.getD (x - s.next) 0) := by
+  simp at hx
+  obtain ⟨hx1, hx2⟩ := hx
+  have := idx_getD L hc.nodup (x - s.next) (by omega)
+  refine ⟨this.1, ?_⟩
+  rw [ren, this.2]; omega
+
+/-- **copy_spec, part 1: the state with the copy added is well formed** -/
+theorem copy_inv : Inv (copyWith s L) := by
+  refine ⟨?_, ?_, ?_⟩
+  · intro p' c' hk
+    by_cases hp : (decide (s.next ≤ p') && decide (p' < s.next + L.length)) = true
+    · obtain ⟨hoL, he⟩ := new_is_ren s n L hc hinv p' hp
+      generalize L.getD (p' - s.next) 0 = o at hoL he
+      subst he
+      rw [copy_kids_new s n L hc hinv o hoL] at hk
+      obtain ⟨c, hcn, rfl⟩ := List.mem_map.mp hk
+      exact copy_parent_new s n L hc hinv o c hoL hcn
+    · have hp' : (decide (s.next ≤ p') && decide (p' < s.next + L.length)) = false := by simpa using hp
+      have hk' : c' ∈ s.kids p' := by
+        have := hk; simp only [copyWith, hp', Bool.false_eq_true, if_false] at this; exact this
+      have hb := hc.bounded p' c' hk'
+      rw [(copy_old s n L hc hinv c' hb.1).1]
+      exact hinv.1 p' c' hk'
+  · intro c' p' hpar
+    by_cases hcnew : (decide (s.next ≤ c') && decide (c' < s.next + L.length)) = true
+    · obtain ⟨hoL, he⟩ := new_is_ren s n L hc hinv c' hcnew
+      simp only [copyWith, hcnew, if_true] at hpar
+      by_cases hb : c' = s.next
+      · simp [hb] at hpar
+      · simp only [hb, if_false] at hpar
+        cases hf : L.find? (fun q => decide (L.getD (c' - s.next) 0 ∈ s.kids q)) with
+        | none => rw [hf] at hpar; simp at hpar
+        | some q =>
+          rw [hf] at hpar
+          simp at hpar
+          have hqL := List.mem_of_find?_eq_some hf
+          have hq := List.find?_some hf
+          simp at hq
+          have : p' = ren s L q := by simp [ren]; omega
+          subst this
+          rw [copy_kids_new s n L hc hinv q hqL]
+          exact List.mem_map.mpr ⟨_, hq, he.symm⟩
+    · have hc' : (decide (s.next ≤ c') && decide (c' < s.next + L.length)) = false := by simpa using hcnew
+      have hpar' : s.parent c' = some p' := by
+        have := hpar; simp only [copyWith, hc', Bool.false_eq_true, if_false] at this; exact this
+      have hk := hinv.2 c' p' hpar'
+      have hb := hc.bounded p' c' hk
+      rw [(copy_old s n L hc hinv p' hb.2).2.1]; exact hk
+  · intro p'
+    by_cases hp : (decide (s.next ≤ p') && decide (p' < s.next + L.length)) = true
+    · obtain ⟨hoL, he⟩ := new_is_ren s n L hc hinv p' hp
+      generalize L.getD (p' - s.next) 0 = o at hoL he
+      subst he
+      rw [copy_kids_new s n L hc hinv o hoL]
+      apply nodup_map_on _ (hinv.3 o)
+      intro a ha b hb hab
+      have : L.idxOf a = L.idxOf b := by simp [ren] at hab; exact hab
+      exact idx_inj L a b (hc.closed o hoL a ha) (hc.closed o hoL b hb) this
+    · have hp' : (decide (s.next ≤ p') && decide (p' < s.next + L.length)) = false := by simpa using hp
+      simp only [copyWith, hp', Bool.false_eq_true, if_false]; exact hinv.3 p'
+
+/-- **copy_spec, part 2** -- the copy is a fresh, equal-shaped, internally re-linked tree and the original
+is untouched:
+* fresh ids: every copy id is `≥ s.next` (no live object has it) and the renaming is injective;
+* root: the copy's root has no parent and a detached locator;
+* shape: the child list of the copy of `o` is the renamed child list of `o`, kind/flags/type equal;
+* re-linked: each child of a copied object points at the copied parent;
+* grids: if `o` has a grid, its copy has a FRESH grid whose owner is the copy, and the copied children's
+  locators live in it; the original's grid and its owner are unchanged (`copy_old`, owner frame). -/
+theorem copy_spec :
+    (∀ o ∈ L, s.next ≤ ren s L o ∧ ren s L o < (copyWith s L).next) ∧
+    (∀ a ∈ L, ∀ b ∈ L, ren s L a = ren s L b → a = b) ∧
+    (copyWith s L).parent (ren s L n) = none ∧ (copyWith s L).loc (ren s L n) = none ∧
+    (∀ o ∈ L, (copyWith s L).kids (ren s L o) = (s.kids o).map (ren s L) ∧
+        (copyWith s L).kind (ren s L o) = s.kind o ∧ (copyWith s L).flags (ren s L o) = s.flags o ∧
+        (copyWith s L).typ (ren s L o) = s.typ o) ∧
+    (∀ o ∈ L, ∀ c ∈ s.kids o, (copyWith s L).parent (ren s L c) = some (ren s L o)) ∧
+    (∀ o ∈ L, (s.grid o).isSome = true →
+        (copyWith s L).grid (ren s L o) = some (s.nextGrid + L.idxOf o) ∧
+        (copyWith s L).owner (s.nextGrid + L.idxOf o) = some (ren s L o) ∧
+        ∀ c ∈ s.kids o, (copyWith s L).loc (ren s L c) = some (s.nextGrid + L.idxOf o)) ∧
+    (∀ g, g < s.nextGrid → (copyWith s L).owner g = s.owner g) := by
+  have hn : n ∈ L := by obtain ⟨L', e⟩ := hc.head; subst e; simp
+  have hsub : ∀ o, o ∈ L → ren s L o - s.next = L.idxOf o := by intro o _; simp [ren]
+  refine ⟨?_, ?_, ?_, ?_, ?_, ?_, ?_, ?_⟩
+  · intro o ho
+    have := List.idxOf_lt_length_of_mem ho
+    simp [ren, copyWith]; omega
+  · intro a ha b hb hab
+    exact idx_inj L a b ha hb (by simp [ren] at hab; exact hab)
+  · have h1 := isNew_ren s n L hc hinv n hn
+    have hb := (ren_eq_base s n L hc hinv n hn).mpr rfl
+    rw [hb] at h1 ⊢
+    simp only [copyWith, h1, if_true]
+  · have h1 := isNew_ren s n L hc hinv n hn
+    have hb := (ren_eq_base s n L hc hinv n hn).mpr rfl
+    rw [hb] at h1 ⊢
+    simp only [copyWith, h1, if_true]
+  · intro o ho
+    have h1 := isNew_ren s n L hc hinv o ho
+    refine ⟨copy_kids_new s n L hc hinv o ho, ?_, ?_, ?_⟩ <;>
+      simp only [copyWith, h1, if_true, hsub o ho, getD_idx L o ho]
+  · intro o ho c hcn; exact copy_parent_new s n L hc hinv o c ho hcn
+  · intro o ho hg
+    have h1 := isNew_ren s n L hc hinv o ho
+    have hl := List.idxOf_lt_length_of_mem ho
+    obtain ⟨g0, hg0⟩ := Option.isSome_iff_exists.mp hg
+    refine ⟨?_, ?_, ?_⟩
+    · simp only [copyWith, h1, if_true, hsub o ho, getD_idx L o ho, hg0, Option.map_some]
+    · have h2 : (decide (s.nextGrid ≤ s.nextGrid + L.idxOf o) && decide (s.nextGrid + L.idxOf o < s.nextGrid + L.length)) = true := by
+        simp; omega
+      have h3 : s.nextGrid + L.idxOf o - s.nextGrid = L.idxOf o := by omega
+      simp only [copyWith, h2, if_true, h3, getD_idx L o ho, hg]
+      simp [ren]
+    · intro c hcn
+      have hcL := hc.closed o ho c hcn
+      have h1c := isNew_ren s n L hc hinv c hcL
+      have hne : ren s L c ≠ s.next := by
+        intro e; have := (ren_eq_base s n L hc hinv c hcL).mp e; subst this; exact hc.root o ho hcn
+      simp only [copyWith, h1c, if_true, hne, if_false, hsub c hcL, getD_idx L c hcL,
+        lister_eq s n L hc hinv o c ho hcn, hg0, Option.map_some]
+  · intro g hg
+    have h2 : ¬ s.nextGrid ≤ g := by omega
+    simp [copyWith, h2]
+end
+
+
+
+private theorem nodup_flatMap_of {f : Nat → List Nat} : ∀ (l : List Nat), l.Nodup → (∀ a ∈ l, (f a).Nodup) →
+    (∀ a ∈ l, ∀ b ∈ l, a ≠ b → ∀ m, m ∈ f a → m ∉ f b) → (l.flatMap f).Nodup
+  | [], _, _, _ => by simp
+  | a :: rest, hnd, hf, hd => by
+    have hnd' := List.nodup_cons.mp hnd
+    rw [List.flatMap_cons, List.nodup_append]
+    refine ⟨hf a (by simp), nodup_flatMap_of rest hnd'.2 (fun x hx => hf x (by simp [hx]))
+      (fun x hx y hy => hd x (by simp [hx]) y (by simp [hy])), ?_⟩
+    intro x hx y hy hxy
+    subst hxy
+    obtain ⟨b, hb, hyb⟩ := List.mem_flatMap.mp hy
+    have hab : a ≠ b := by intro e; subst e; exact hnd'.1 hb
+    exact hd a (by simp) b (by simp [hb]) hab x hx hyb
+
+private theorem descN_snoc (s : St) {k a q c : Nat} (h : DescN s k a q) : c ∈ s.kids q → DescN s (k + 1) a c := by
+  induction h with
+  | child hca => intro hc; exact DescN.step hca (DescN.child hc)
+  | step hca _ ih => intro hc; exact DescN.step hca (ih hc)
+
+/-- depth function witnessing acyclicity -/
+def DepthFn (s : St) (d : Nat → Nat) : Prop := ∀ c p, s.parent c = some p → d p < d c
+
+section
+variable (s : St) (d : Nat → Nat) (hinv : Inv s) (hd : DepthFn s d)
+include hinv hd
+
+theorem desc_depth {n m : Nat} (h : Desc s n m) : d n < d m := by
+  induction h with
+  | child hc => exact hd _ _ (hinv.1 _ _ hc)
+  | step hc _ ih => exact Nat.lt_trans (hd _ _ (hinv.1 _ _ hc)) ih
+
+theorem desc_parent {c m : Nat} (h : Desc s c m) : ∃ q, s.parent m = some q ∧ (q = c ∨ Desc s c q) := by
+  induction h with
+  | child hc => exact ⟨_, hinv.1 _ _ hc, Or.inl rfl⟩
+  | step hc _ ih =>
+    obtain ⟨q, hq, hor⟩ := ih
+    refine ⟨q, hq, Or.inr ?_⟩
+    rcases hor with e | hdq
+    · subst e; exact Desc.child hc
+    · exact Desc.step hc hdq
+
+/-- two different children of the same object have no common descendant -/
+theorem desc_unique_child (n : Nat) : ∀ (N m c1 c2 : Nat), d m ≤ N → s.parent c1 = some n → s.parent c2 = some n →
+    Desc s c1 m → Desc s c2 m → c1 = c2 := by
+  intro N
+  induction N with
+  | zero =>
+    intro m c1 c2 hN _ _ h1 _
+    have := desc_depth s d hinv hd h1; omega
+  | succ N ih =>
+    intro m c1 c2 hN hp1 hp2 h1 h2
+    obtain ⟨q1, hq1, ho1⟩ := desc_parent s d hinv hd h1
+    obtain ⟨q2, hq2, ho2⟩ := desc_parent s d hinv hd h2
+    rw [hq1] at hq2; cases hq2
+    have hdq : d q1 < d m := hd _ _ hq1
+    -- a child of n cannot have n (or itself) below it
+    have no_loop : ∀ a b, s.parent a = some n → s.parent b = some n → Desc s a b → False := by
+      intro a b ha hb hab
+      obtain ⟨q, hq, hor⟩ := desc_parent s d hinv hd hab
+      rw [hb] at hq; cases hq
+      rcases hor with e | hdn
+      · subst e; have := hd _ _ ha; omega
+      · have := desc_depth s d hinv hd hdn; have := hd _ _ ha; omega
+    rcases ho1 with e1 | hd1 <;> rcases ho2 with e2 | hd2
+    · rw [← e1, ← e2]
+    · subst e1; exact absurd hd2 (fun h => no_loop c2 q1 hp2 hp1 h)
+    · subst e2; exact absurd hd1 (fun h => no_loop c1 q1 hp1 hp2 h)
+    · exact ih q1 c1 c2 (by omega) hp1 hp2 hd1 hd2
+
+/-- **each descendant exactly once**: the deep traversal has no repeats (any fuel) -/
+theorem iterC_deep_nodup : ∀ (fuel : Nat) (g : Int) (n : Nat), (iterC s fuel true g (fun _ => true) n).Nodup
+  | 0, _, _ => by simp [iterC]
+  | f + 1, g, n => by
+    have hun : iterC s (f + 1) true g (fun _ => true) n =
+        s.kids n ++ (s.kids n).flatMap (fun c => iterC s f true (g - 1) (fun _ => true) c) := by
+      simp [iterC]
+    rw [hun, List.nodup_append]
+    refine ⟨hinv.3 n, ?_, ?_⟩
+    · apply nodup_flatMap_of _ (hinv.3 n) (fun c _ => iterC_deep_nodup f (g - 1) c)
+      intro a ha b hb hab m hma hmb
+      have h1 := iterC_deep_sound s f (g - 1) a m hma
+      have h2 := iterC_deep_sound s f (g - 1) b m hmb
+      exact hab (desc_unique_child s d hinv hd n (d m) m a b (Nat.le_refl _) (hinv.1 n a ha) (hinv.1 n b hb) h1 h2)
+    · intro k hk y hy hky
+      subst hky
+      obtain ⟨c, hc, hkc⟩ := List.mem_flatMap.mp hy
+      have hdk := iterC_deep_sound s f (g - 1) c k hkc
+      obtain ⟨q, hq, hor⟩ := desc_parent s d hinv hd hdk
+      rw [hinv.1 n k hk] at hq; cases hq
+      have hpc := hd _ _ (hinv.1 n c hc)
+      rcases hor with e | hdn
+      · subst e; omega
+      · have := desc_depth s d hinv hd hdn; omega
+
+theorem desc_descN {n m : Nat} (h : Desc s n m) : ∃ k, DescN s k n m := by
+  induction h with
+  | child hc => exact ⟨1, DescN.child hc⟩
+  | step hc _ ih => obtain ⟨k, hk⟩ := ih; exact ⟨k + 1, DescN.step hc hk⟩
+
+/-- the list the copy works on (root, then the deep traversal) meets every hypothesis of `copy_spec`,
+for a well-formed acyclic state whose ids are live, provided the driver's fuel (number of objects + 1)
+is enough, i.e. no descendant of `n` lies deeper than the number of objects (true by pigeonhole for
+live acyclic trees; kept as an explicit hypothesis) -/
+theorem copyOK_subtree (n : Nat) (hn : n < s.next)
+    (hb : ∀ p c, c ∈ s.kids p → c < s.next ∧ p < s.next)
+    (hdepth : ∀ k m, DescN s k n m → k ≤ s.next + 1) :
+    CopyOK s n (subtreeList s n) := by
+  have sound : ∀ m, m ∈ iterC s (s.next + 1) true 1 (fun _ => true) n → Desc s n m :=
+    fun m hm => iterC_deep_sound s _ _ n m hm
+  refine ⟨⟨_, rfl⟩, ?_, ?_, ?_, ?_, hb⟩
+  · unfold subtreeList
+    rw [List.nodup_cons]
+    refine ⟨?_, iterC_deep_nodup s d hinv hd _ _ _⟩
+    intro hm; have := desc_depth s d hinv hd (sound n hm); omega
+  · intro q hq c hc
+    unfold subtreeList at hq ⊢
+    have hdc : ∃ k, DescN s k n c := by
+      rcases List.mem_cons.mp hq with e | hq'
+      · subst e; exact ⟨1, DescN.child hc⟩
+      · obtain ⟨k, hk⟩ := desc_descN s d hinv hd (sound q hq')
+        -- append the last edge q → c at the bottom
+        exact ⟨k + 1, descN_snoc s hk hc⟩
+    obtain ⟨k, hk⟩ := hdc
+    exact List.mem_cons_of_mem _ (iterC_deep_complete s k _ 1 n c hk (hdepth k c hk))
+  · intro q hq hnq
+    unfold subtreeList at hq
+    have hpn := hd _ _ (hinv.1 q n hnq)
+    rcases List.mem_cons.mp hq with e | hq'
+    · subst e; omega
+    · have := desc_depth s d hinv hd (sound q hq'); omega
+  · intro x hx
+    unfold subtreeList at hx
+    rcases List.mem_cons.mp hx with e | hx'
+    · subst e; exact hn
+    · obtain ⟨q, hq, _⟩ := desc_parent s d hinv hd (sound x hx')
+      exact (hb q x (hinv.2 x q hq)).1
+end
+
+
+
+/-! ### acyclicity threaded through every run -/
+
+theorem anc_depth {s : St} {d : Nat → Nat} (hd : DepthFn s d) {a x : Nat} (h : Anc s a x) : d a ≤ d x := by
+  induction h with
+  | refl => exact Nat.le_refl _
+  | step hp _ ih => exact Nat.le_trans ih (Nat.le_of_lt (hd _ _ hp))
+
+private theorem anc_ext {s : St} {x p q : Nat} (h : Anc s x p) : s.parent x = some q → Anc s q p := by
+  induction h with
+  | refl => intro hq; exact Anc.step hq Anc.refl
+  | step hp _ ih => intro hq; exact Anc.step hp (ih hq)
+
+/-- if `t` agrees with `s` on the parent pointers of all `s`-ancestors of `p`, ancestors of `p` in `t`
+are ancestors in `s` -/
+private theorem anc_agree {s t : St} {p : Nat} (hag : ∀ x, Anc s x p → t.parent x = s.parent x) {a : Nat}
+    (h : Anc t a p) : Anc s a p := by
+  have gen : ∀ x, Anc t a x → Anc s x p → Anc s a x := by
+    intro x hx
+    induction hx with
+    | refl => intro _; exact Anc.refl
+    | step hp _ ih =>
+      intro hxp
+      rw [hag _ hxp] at hp
+      exact Anc.step hp (ih (anc_ext hxp hp))
+  exact gen p h Anc.refl
+
+theorem add_acyclic (s : St) (p c : Nat) (h : Inv s) (ha : Acyclic s) (hc : s.parent c = none)
+    (hcyc : ¬ Anc s c p) : Acyclic (add s p c).1 := by
+  have hi := cAdd_acyclic s p c h ha hc hcyc
+  unfold add
+  by_cases h1 : s.kind p = kAssembly
+  · simp only [h1, if_true]
+    by_cases h2 : s.kind c ≠ kBlock
+    · rw [if_pos h2]; exact ha
+    · rw [if_neg h2]
+      split
+      · exact acyclic_of_eq (s := (cAdd s p c).1) rfl hi
+      · exact hi
+  · simp only [h1, if_false]
+    by_cases h3 : s.kind p = kCore
+    · simp only [h3, if_true]
+      split
+      · exact acyclic_of_eq (s := (cAdd s p c).1) rfl hi
+      · exact hi
+    · simp only [h3, if_false]; exact hi
+
+theorem insert_acyclic (s : St) (p : Nat) (i : Int) (c : Nat) (h : Inv s) (ha : Acyclic s)
+    (hc : s.parent c = none) (hcyc : ¬ Anc s c p) : Acyclic (insert s p i c).1 := by
+  have hi := cInsert_acyclic s p i c h ha hc hcyc
+  unfold insert
+  by_cases h1 : s.kind p = kAssembly
+  · simp only [h1, if_true]
+    by_cases h2 : s.kind c ≠ kBlock
+    · rw [if_pos h2]; exact ha
+    · rw [if_neg h2]
+      split
+      · exact acyclic_of_eq (s := (cInsert s p i c).1) rfl hi
+      · exact hi
+  · simp only [h1, if_false]; exact hi
+
+private theorem seqOps_keeps (P : St → Prop) (f : St → Nat → St × Bool) (hf : ∀ t c, P t → P (f t c).1) :
+    ∀ (l : List Nat) (s : St) (b : Bool), P s → P (l.foldl (fun acc c => if acc.2 then f acc.1 c else acc) (s, b)).1
+  | [], _, _, h => h
+  | c :: rest, s, b, h => by
+    rw [List.foldl_cons]
+    cases b with
+    | true => simp only [if_true]; exact seqOps_keeps P f hf rest _ _ (hf s c h)
+    | false => exact seqOps_keeps P f hf rest s false h
+
+private theorem seqOps_stop (f : St → Nat → St × Bool) : ∀ (l : List Nat) (t : St),
+    (l.foldl (fun acc c => if acc.2 = true then f acc.1 c else acc) (t, false)) = (t, false)
+  | [], _ => rfl
+  | _ :: l, t => by simp [List.foldl_cons, seqOps_stop f l t]
+
+theorem removeAll_acyclic (s : St) (p : Nat) (ha : Acyclic s) : Acyclic (removeAll s p).1 :=
+  seqOps_keeps Acyclic (fun t c => remove t p c) (fun t c h => cRemove_acyclic t p c h) _ s true ha
+
+private theorem seqAdd_wf (p : Nat) : ∀ (l : List Nat) (s : St), Inv s → Acyclic s → l.Nodup →
+    (∀ c ∈ l, s.parent c = none) → (∀ c ∈ l, ¬ Anc s c p) → Acyclic (seqOps (fun t c => add t p c) s l).1 := by
+  intro l
+  induction l with
+  | nil => intro s _ ha _ _ _; simpa [seqOps] using ha
+  | cons c rest ih =>
+    intro s h ha hnd hall hanc
+    have hnd' := List.nodup_cons.mp hnd
+    have hi := add_inv s p c h (hall c (by simp))
+    have hai := add_acyclic s p c h ha (hall c (by simp)) (hanc c (by simp))
+    simp only [seqOps, List.foldl_cons, if_true]
+    by_cases hok : (add s p c).2 = true
+    · have e : add s p c = ((add s p c).1, true) := Prod.ext rfl hok
+      rw [e]
+      apply ih _ hi hai hnd'.2
+      · intro x hx
+        have hne : x ≠ c := by intro e; subst e; exact hnd'.1 hx
+        rw [add_parent_other s p c x hne]; exact hall x (by simp [hx])
+      · intro x hx hA
+        apply hanc x (by simp [hx])
+        apply anc_agree (s := s) (t := (add s p c).1) _ hA
+        intro y hy
+        have hne : y ≠ c := by intro e; rw [e] at hy; exact hanc c (by simp) hy
+        exact add_parent_other s p c y hne
+    · have hfalse : (add s p c).2 = false := by simpa using hok
+      have e : add s p c = ((add s p c).1, false) := Prod.ext rfl hfalse
+      rw [e, seqOps_stop (fun t c => add t p c) rest]; exact hai
+
+theorem setChildren_acyclic (s : St) (p : Nat) (items : List Nat) (h : Inv s) (ha : Acyclic s) (hnd : items.Nodup)
+    (hit : ∀ c ∈ items, (s.parent c = none ∨ s.parent c = some p) ∧ ¬ Anc s c p) :
+    Acyclic (setChildren s p items).1 := by
+  obtain ⟨i1, i2, _, i4, i5⟩ := removeAll_inv s p h
+  have a1 := removeAll_acyclic s p ha
+  obtain ⟨d, hd⟩ := ha
+  unfold setChildren
+  simp only [i2, if_true]
+  apply seqAdd_wf p items _ i1 a1 hnd
+  · intro c hc
+    by_cases hk : c ∈ s.kids p
+    · exact i4 c hk
+    · rw [i5 c hk]
+      rcases (hit c hc).1 with h0 | h1
+      · exact h0
+      · exact absurd (h.2 c p h1) hk
+  · intro c hc hA
+    apply (hit c hc).2
+    apply anc_agree (s := s) (t := (removeAll s p).1) _ hA
+    intro y hy
+    by_cases hk : y ∈ s.kids p
+    · have h1 := anc_depth (s := s) hd hy
+      have h2 := hd _ _ (h.1 p y hk)
+      omega
+    · exact i5 y hk
+
+/-- well formed AND acyclic -/
+def WFT (s : St) : Prop := Inv s ∧ Acyclic s
+
+/-- preconditions of "valid use", now with the no-cycle side condition on every attachment -/
+def PreA (s : St) : Op → Prop
+  | .add p c => s.parent c = none ∧ ¬ Anc s c p
+  | .insert p _ c => s.parent c = none ∧ ¬ Anc s c p
+  | .setChildren p items => items.Nodup ∧ ∀ c ∈ items, (s.parent c = none ∨ s.parent c = some p) ∧ ¬ Anc s c p
+  | op => Pre s op
+
+private theorem samePerm_acyclic {s t : St} (hp : SamePerm s t) (h : Acyclic s) : Acyclic t :=
+  acyclic_of_eq hp.1 h
+
+/-- **One step keeps the tree well formed and acyclic.** -/
+theorem wft_step (s : St) (op : Op) (h : WFT s) (hp : PreA s op) : WFT (step s op) := by
+  obtain ⟨hi, ha⟩ := h
+  cases op with
+  | new k f t g =>
+    refine ⟨inv_step s _ hi hp, ?_⟩
+    apply acyclic_of_eq (s := s) _ ha
+    funext x; simp only [step, newNode]; by_cases hx : x = s.next <;> simp [hx, hp.1]
+  | add p c => exact ⟨add_inv s p c hi hp.1, add_acyclic s p c hi ha hp.1 hp.2⟩
+  | insert p i c => exact ⟨insert_inv s p i c hi hp.1, insert_acyclic s p i c hi ha hp.1 hp.2⟩
+  | remove p c => exact ⟨cRemove_inv s p c hi hp, cRemove_acyclic s p c ha⟩
+  | removeAll p => exact ⟨(removeAll_inv s p hi).1, removeAll_acyclic s p ha⟩
+  | setChildren p items =>
+    exact ⟨setChildren_inv s p items hi hp.1 (fun c hc => (hp.2 c hc).1),
+      setChildren_acyclic s p items hi ha hp.1 hp.2⟩
+  | sort p rank => exact ⟨sort_inv _ _ s p hi, samePerm_acyclic (sortRec_samePerm _ _ s p) ha⟩
+  | reestablish a => exact ⟨inv_step s _ hi hp, acyclic_of_eq (s := s) rfl ha⟩
+  | moveTo c hh =>
+    refine ⟨inv_step s _ hi hp, ?_⟩
+    simp only [step, moveTo]
+    split
+    · exact ha
+    · split
+      · exact acyclic_of_eq (s := s) rfl ha
+      · exact ha
+  | copy n => exact absurd hp id
+
+def PreAllA : St → List Op → Prop
+  | _, [] => True
+  | s, op :: rest => PreA s op ∧ PreAllA (step s op) rest
+
+/-- **Every reachable state is a well-formed, acyclic forest** (any finite valid-use edit history). -/
+theorem wft_run : ∀ (ops : List Op) (s : St), WFT s → PreAllA s ops → WFT (ops.foldl step s)
+  | [], _, h, _ => h
+  | op :: rest, s, h, hp => wft_run rest (step s op) (wft_step s op h hp.1) hp.2
+
+theorem wft_empty : WFT St.empty := ⟨inv_empty, ⟨fun _ => 0, by intro c p h; simp [St.empty] at h⟩⟩
+
+/-! ### order of the deep traversal; components -/
+
+/-- **the order the code produces**: the direct children in child order, then, child by child in child
+order, that child's own deep traversal as one contiguous block -/
+theorem iterC_deep_order (s : St) (f : Nat) (g : Int) (n : Nat) :
+    iterC s (f + 1) true g (fun _ => true) n =
+      s.kids n ++ (s.kids n).flatMap (fun c => iterC s f true (g - 1) (fun _ => true) c) := by
+  simp [iterC]
+
+/-- the usual naive pre-order walk: each child immediately followed by its own walk -/
+def preWalk (s : St) : Nat → Nat → List Nat
+  | 0, _ => []
+  | f + 1, n => (s.kids n).flatMap (fun c => c :: preWalk s f c)
+
+private theorem perm_flatMap_cons (g : Nat → List Nat) : ∀ (l : List Nat),
+    (l.flatMap (fun c => c :: g c)).Perm (l ++ l.flatMap g)
+  | [] => List.Perm.refl _
+  | a :: rest => by
+    simp only [List.flatMap_cons, List.cons_append]
+    refine List.Perm.cons a ?_
+    have ih := perm_flatMap_cons g rest
+    calc g a ++ rest.flatMap (fun c => c :: g c)
+        _ |>.Perm (g a ++ (rest ++ rest.flatMap g)) := List.Perm.append_left _ ih
+        _ |>.Perm (rest ++ (g a ++ rest.flatMap g)) := by
+          rw [← List.append_assoc, ← List.append_assoc]
+          exact List.Perm.append_right _ List.perm_append_comm
+
+private theorem perm_flatMap_congr {f g : Nat → List Nat} : ∀ (l : List Nat), (∀ c ∈ l, (f c).Perm (g c)) →
+    (l.flatMap f).Perm (l.flatMap g)
+  | [], _ => List.Perm.refl _
+  | a :: rest, h => by
+    simp only [List.flatMap_cons]
+    exact List.Perm.append (h a (by simp)) (perm_flatMap_congr rest (fun c hc => h c (by simp [hc])))
+
+/-- **the deep traversal returns exactly the objects of the naive pre-order walk, with the same
+multiplicities** (it differs from pre-order only by listing the direct children first) -/
+theorem iterC_deep_perm_preWalk (s : St) : ∀ (f : Nat) (g : Int) (n : Nat),
+    (iterC s f true g (fun _ => true) n).Perm (preWalk s f n)
+  | 0, _, _ => by simp [iterC, preWalk]
+  | f + 1, g, n => by
+    rw [iterC_deep_order]
+    unfold preWalk
+    refine List.Perm.trans ?_ (perm_flatMap_cons (preWalk s f) (s.kids n)).symm
+    exact List.Perm.append_left _ (perm_flatMap_congr _ (fun c _ => iterC_deep_perm_preWalk s f (g - 1) c))
+
+/-- the naive depth-first walk down to the Components (a Component is a leaf of this walk) -/
+def compWalk (s : St) : Nat → Nat → List Nat
+  | 0, _ => []
+  | f + 1, n => if s.kind n = kComponent then [n] else (s.kids n).flatMap (compWalk s f)
+
+/-- **iterComponents_spec**: `iterComponents(typeSpec, exact)` = the Components met by the naive
+depth-first walk in child order, filtered by `hasFlags(typeSpec, exact)` -/
+theorem iterComps_spec (s : St) (spec : Spec) (exact : Bool) : ∀ (fuel n : Nat),
+    iterComps s fuel spec exact n = (compWalk s fuel n).filter (fun m => hasFlags (s.flags m) spec exact)
+  | 0, _ => by simp [iterComps, compWalk]
+  | f + 1, n => by
+    unfold iterComps compWalk
+    by_cases hk : s.kind n = kComponent
+    · simp only [hk, if_true]
+      by_cases hf : hasFlags (s.flags n) spec exact = true <;> simp [hf]
+    · simp only [hk, if_false]
+      rw [List.filter_flatMap]
+      congr 1; funext c; exact iterComps_spec s spec exact f c
+
+
+/-- **copy_spec for `copy.deepcopy` / pickle of the subtree below `n`** (the list the model copies is
+root + deep traversal): the resulting state is well formed; with `copy_spec` (fresh ids, shape,
+re-linking, grids) and `copy_old` (the original is untouched) instantiated at `subtreeList s n`. -/
+theorem copyTree_inv (s : St) (d : Nat → Nat) (hinv : Inv s) (hd : DepthFn s d) (n : Nat) (hn : n < s.next)
+    (hb : ∀ p c, c ∈ s.kids p → c < s.next ∧ p < s.next)
+    (hdepth : ∀ k m, DescN s k n m → k ≤ s.next + 1) : Inv (copyTree s n) :=
+  copy_inv s n _ (copyOK_subtree s d hinv hd n hn hb hdepth) hinv
+
+/-- non-vacuity of `CopyOK`: a single live object -/
+example : CopyOK (newNode St.empty 0 0 0 true) 0 [0] := by
+  refine ⟨⟨[], rfl⟩, by simp, ?_, ?_, ?_, ?_⟩
+  · intro q _ c hc; rw [show (newNode St.empty 0 0 0 true).kids _ = [] from by (show (if _ = (0:Nat) then ([] : List Nat) else []) = []); exact ite_self _] at hc; cases hc
+  · intro q _ hc; rw [show (newNode St.empty 0 0 0 true).kids _ = [] from by (show (if _ = (0:Nat) then ([] : List Nat) else []) = []); exact ite_self _] at hc; cases hc
+  · intro x hx; simp at hx; subst hx; simp [newNode, St.empty]
+  · intro p c hc; rw [show (newNode St.empty 0 0 0 true).kids _ = [] from by (show (if _ = (0:Nat) then ([] : List Nat) else []) = []); exact ite_self _] at hc; cases hc
+
 end ArmiVerif.Tree
